@@ -17,6 +17,8 @@ type RunOpts struct {
 	Verbose  bool
 	Hints    *HintDB // nil: no hints
 	Record   bool    // record unsat cores of obligations that needed the full query
+	Cross    int     // thorough tier: also run the FULL query of every hint-discharged obligation for this many seconds
+	Fresh    bool    // thorough tier: vacuity guards are re-run, not taken from the record
 }
 
 // Discharge runs all obligations in parallel.
@@ -50,6 +52,19 @@ func Discharge(vcs []*FuncVC, opts RunOpts) {
 				}
 				var r SolverResult
 				hinted := false
+				if j.o.Cover && opts.Fresh {
+					to = 3
+				}
+				if j.o.Cover && opts.Hints != nil && !opts.Fresh {
+					// vacuity guards: a guard whose query text is byte-identical to one recorded as "not refuted"
+					// needs no new run (same text, same answer); any change to the text re-runs it
+					qh := "cover:" + lineHash(q)
+					if hs := opts.Hints.Get(j.o.Name); len(hs) == 1 && len(hs[0]) == 1 && hs[0][0] == qh {
+						j.o.Result = SolverResult{Status: "unknown", Solver: "recorded"}
+						j.o.OK = true
+						continue
+					}
+				}
 				if !j.o.Cover && opts.Hints != nil {
 					for _, hs := range opts.Hints.Get(j.o.Name) {
 						sq, ok := sliceByHint(q, hs)
@@ -86,6 +101,14 @@ func Discharge(vcs []*FuncVC, opts RunOpts) {
 				}
 				j.o.Result = r
 				j.o.Hinted = hinted
+				if hinted && opts.Cross > 0 {
+					fr := RunQuery(opts.TmpDir, j.o.Name+".full", q, opts.Cross, solvers)
+					j.o.FullStatus = fr.Status
+					j.o.FullSeconds = fr.Seconds
+				}
+				if j.o.Cover && opts.Record && opts.Hints != nil && r.Status != "unsat" {
+					opts.Hints.Put(j.o.Name, []string{"cover:" + lineHash(q)})
+				}
 				if j.o.Cover {
 					j.o.OK = r.Status != "unsat"
 				} else {
